@@ -18,7 +18,9 @@ REQUIRED_THEOREMS = ["gate_iff", "storage_agree", "lap_row_sums_zero", "interior
                      # round 4: bridges to the system assembly translated from the source + the discrete maximum principle
                      "laplacian_source", "lap_row_sums_zero_source", "system_source", "storage_source", "from_string_source",
                      "flat_mesh_source", "max_principle_model", "interior_in_every_halfplane_of_border",
-                     "interior_strictly_inside_halfplane", "tutte_interior_in_hull_source"]
+                     "interior_strictly_inside_halfplane", "tutte_interior_in_hull_source",
+                     # round 5
+                     "init_source", "interior_strictly_inside_of_strictly_convex_border", "interior_strictly_inside_unit_square"]
 TRUSTED = [
     "Lean 4.33.0 kernel; axioms ⊆ {propext, Classical.choice, Quot.sound}",
     "hand-written model Mouette/Model/Tutte.lean (_initialize_boundary, Laplacian triplets, free/border partition, exact rational "
@@ -35,7 +37,8 @@ TRUSTED = [
 ASSUMPTIONS = ["agreement model/implementation and fold-freeness are established on the cases explored in this run only",
                "floating point round-off is not modelled (tolerance 1e-9*scale+1e-12)"]
 RULE = ("triangulated disks (jittered/regular grids, strips, Delaunay, fans with 0-2 rings, convex polygons triangulated by chords, "
-        "chords + inserted interior vertices, grids with flipped edges; border lengths 3..60 incl. every residue mod 4; integer / "
+        "chords + inserted interior vertices, grids with flipped edges; needle triangles (an angle of 0.4-2.9 degrees: rows of thin isosceles "
+        "triangles, disks stretched along an axis; cotangent weights); border lengths 3..60 incl. every residue mod 4; integer / "
         "binary32 coordinates; custom arrays f32/int/Fortran/read-only/strided; run twice / second embedder on the same mesh) × "
         "{circle, square, custom convex} × {uniform, cotan} × {vertex, corner}; plus non-disks (χ≠1) that must be rejected; "
         "non-trivial = disk with at least one interior vertex whose run succeeded")
@@ -546,11 +549,49 @@ def cases(rng, tier):
         c2 = dict(base, mode=rng.choice(["circle", "square"]), cotan=(k % 2 == 0), corners=rng.random() < 0.5,
                   hist=rng.choice(["second-otherweights", "attrs"]), hist_mode=rng.choice(["circle", "square"]))
         yield c2
+    # needle triangles (round 5): an angle below 3 degrees, i.e. |cot| > 19 - the cotangent weights are recomputed independently
+    # by the oracle, so anything done to large cotangents inside the library shows up as "not at the weighted average"
+    for c in needle_cases(rng, 14 if tier == "quick" else 120):
+        yield c
     for _ in range(40 if tier == "quick" else 200):
         s = CG.connected_tri_surface(rng, 30)
         if s["stats"]["chi"] == 1 and s["stats"]["loops"] == 1: continue
         yield {"V": s["V"], "F": s["F"], "mode": rng.choice(["circle", "square"]), "cotan": False, "corners": rng.random() < 0.5,
                "tag": "nondisk:" + s["tag"]}
+
+
+def needle_cases(rng, n):
+    """disks with at least one triangle angle in (0.4, 2.9) degrees: (a) rows of isosceles triangles (all angles acute: every
+    cotangent weight positive, so the orientation clause applies as well), (b) a well-shaped disk stretched along one axis"""
+    out = []
+    tries = 0
+    while len(out) < n and tries < 20 * n:
+        tries += 1
+        if tries % 2 == 0:
+            nc, nr = rng.randint(3, 5), rng.randint(3, 5)
+            base = 1.0
+            ang = rng.choice([0.6, 1.0, 1.5, 2.0, 2.3, 2.7])                     # apex angle in degrees
+            height = G.dy(base / (2 * math.tan(math.radians(ang) / 2)), 1 << 10)
+            V = [[base * (i + 0.5 * (j % 2)), height * j, 0.0] for j in range(nr) for i in range(nc)]
+            F = []
+            for j in range(nr - 1):
+                for i in range(nc - 1):
+                    L0, L1, U0, U1 = j * nc + i, j * nc + i + 1, (j + 1) * nc + i, (j + 1) * nc + i + 1
+                    F += [[L0, L1, U0], [L1, U1, U0]] if j % 2 == 0 else [[L0, U1, U0], [L0, L1, U1]]
+            tag = "needle-rows"
+        else:
+            d = CG.tri_disk(rng, rng.choice([10, 30]))
+            k = rng.choice([12.0, 20.0, 32.0, 50.0])
+            ax = rng.randint(0, 1)
+            V = [[c * (k if t == ax else 1.0) for t, c in enumerate(v)] for v in d["V"]]
+            F = d["F"]
+            tag = "needle-stretch"
+        st = G.surface_stats(len(V), F)
+        if not (st["manifold"] and st["components"] == 1 and st["chi"] == 1 and st["loops"] == 1 and st["unused"] == 0): continue
+        ma = CG.min_angle_deg(V, F)
+        if not (0.4 < ma < 2.9): continue
+        out.append({"V": V, "F": F, "mode": rng.choice(["circle", "square"]), "cotan": True, "corners": rng.random() < 0.5, "tag": tag})
+    return out
 
 
 def shrink(case, still):
@@ -770,9 +811,14 @@ def _translate_rest():
 def translate():
     from .. import translate as T
     from ..gen import c17_translate
-    return [T.site("tutte.py: TutteEmbedding._initialize_boundary (SQUARE branch: corners, ranges, affine expressions)", _translate_square),
-            T.site("tutte.py: _initialize_boundary CIRCLE + CUSTOM branches, run(): Euler gate and border order", _translate_rest)] \
-        + c17_translate.sites()
+    r1 = T.site("tutte.py: TutteEmbedding._initialize_boundary (SQUARE branch: corners, ranges, affine expressions)", _translate_square)
+    r2 = T.site("tutte.py: _initialize_boundary CIRCLE + CUSTOM branches, run(): Euler gate and border order", _translate_rest)
+    # a site that raised must not leave the fragments of an earlier tree on disk: a stub without definitions makes its bridges fail
+    for r, name, ns in ((r1, "C17Tutte", "C17"), (r2, "C17TutteB", "C17B")):
+        if not r["ok"]:
+            T.write_generated(name, f"namespace Mouette.Generated.{ns}\n/- translation of the current tree FAILED: no definitions are emitted -/\n"
+                                    f"end Mouette.Generated.{ns}\n")
+    return [r1, r2] + c17_translate.sites()
 
 
 _TUT = "mouette/processing/parametrization/tutte.py::TutteEmbedding."
@@ -780,10 +826,10 @@ _LAPF = "mouette/operators/laplacian_op.py::"
 _BRD = "mouette/processing/border.py::"
 SOURCE_MAP = {
     _TUT + "BoundaryMode.from_string": "translated",
-    _TUT + "__init__": "oracle-only",
+    _TUT + "__init__": "translated",
     _TUT + "run": "translated",
     _TUT + "_initialize_boundary": "translated",
-    "mouette/processing/parametrization/base.py::BaseParametrization.__init__": "oracle-only",
+    "mouette/processing/parametrization/base.py::BaseParametrization.__init__": "translated: the keyword and default of save_on_corners (init_source); the other attribute initialisations are oracle-only",
     "mouette/processing/parametrization/base.py::BaseParametrization.run": "out-of-scope: abstract method",
     "mouette/processing/parametrization/base.py::BaseParametrization.flat_mesh": "translated: the keys read per corner / per vertex and the zero third coordinate; the lazy copy is oracle-only",
     _LAPF + "graph_laplacian": "out-of-scope: not used by TutteEmbedding",
@@ -830,7 +876,10 @@ MANIFEST = {
                    "border, and every free vertex joined to the border through free vertices, every closed half-plane containing the border positions "
                    "contains every interior position (the interior lies in the convex hull of the border: max_principle_model, "
                    "interior_in_every_halfplane_of_border, tutte_interior_in_hull_source from the system as written), strictly as soon as the vertex "
-                   "reaches a border vertex strictly inside the half-plane (interior_strictly_inside_halfplane). "
+                   "reaches a border vertex strictly inside the half-plane (interior_strictly_inside_halfplane); round 5: strictly convex border (at most two "
+                   "border positions on a supporting line) + three reachable border vertices => strictly inside (interior_strictly_inside_of_strictly_convex_border); "
+                   "square target: a free vertex that reaches the corners (0,0) and (1,1) lies in the OPEN unit square (interior_strictly_inside_unit_square); "
+                   "__init__ of TutteEmbedding / BaseParametrization translated (init_source). "
                    "NOT proved - checked on every run: Tutte/Floater (every triangle has the same strict orientation: exact orient2d on "
                    "Fractions of the output floats, uniform weights always, cotangent weights when non-negative, square target when no "
                    "triangle has its three vertices on one side); that the solver's output solves the system (exact model solution compared "
